@@ -32,7 +32,7 @@ PROPS = {
         "timeout": 1500,
     },
     "C05": {
-        "lean_modules": ["JrpcProofs.Props.C05", "JrpcProofs.Facts.Backoff", "JrpcProofs.Facts.ErrTypes", "JrpcProofs.Facts.Options", "JrpcProofs.Facts.Corr", "JrpcProofs.Facts.Call", "JrpcProofs.Facts.Interp", "JrpcProofs.Trans.Backoff"],
+        "lean_modules": ["JrpcProofs.Props.C05", "JrpcProofs.Facts.Backoff", "JrpcProofs.Facts.ErrTypes", "JrpcProofs.Facts.Options", "JrpcProofs.Facts.Corr", "JrpcProofs.Facts.Call", "JrpcProofs.Facts.Interp", "JrpcProofs.Trans.Backoff", "JrpcProofs.Trans.Options"],
         "assumptions": [
             "float64 arithmetic of backoff.next is modelled exactly over the rationals; the differential check allows a relative slack of 2^-40 + 1 ns",
             "rand.Float64() lies in [0,1)",
